@@ -133,19 +133,20 @@ def resolveToString (c : Ctx) (v : Value) : ER String :=
 def instructionErrorFromExec (e : CatchableErr) (instruction : String) (peerId : Option String) (t : Option Tetraplet) : InstructionError :=
   ⟨errorFromRawFields e.code e.render instruction peerId, t, .literal, none⟩
 
-/-- `ExecutionCtx::set_errors` for a catchable error (uncatchable errors affect nothing) -/
+/-- `ExecutionCtx::set_errors` for a catchable error (uncatchable errors affect nothing):
+`%last_error%` is set once until re-enabled, `:error:` is set if enabled and then disabled -/
 def Ctx.setErrors (c : Ctx) (e : CatchableErr) (instruction : String) (tetraplet : Option Tetraplet) (useTetrapletAndLogPeerId : Bool) : Ctx :=
   let lastErrorPeerId : String := match tetraplet with
     | some t => if useTetrapletAndLogPeerId then t.peerPk else c.currentPeerId
     | none => c.currentPeerId
-  let c := if c.lastError.canBeSet && e.affectsLastError then
-      { c with lastError := { error := instructionErrorFromExec e instruction (some lastErrorPeerId) tetraplet, canBeSet := false } }
-    else c
   let peerId := if useTetrapletAndLogPeerId then some lastErrorPeerId else none
-  let c := if c.error.canBeSet then
-      { c with error := { c.error with error := instructionErrorFromExec e instruction peerId tetraplet } }
-    else c
-  { c with error := { c.error with canBeSet := false } }
+  { c with
+    lastError := if c.lastError.canBeSet && e.affectsLastError then
+        { error := instructionErrorFromExec e instruction (some lastErrorPeerId) tetraplet, canBeSet := false }
+      else c.lastError,
+    error := if c.error.canBeSet then
+        { error := instructionErrorFromExec e instruction peerId tetraplet, canBeSet := false }
+      else { c.error with canBeSet := false } }
 
 /-- the `execute!` macro: update errors when an instruction other than `call` fails -/
 def Ctx.setErrorsOf (c : Ctx) (err : ExecErr) (i : Instr) : Ctx :=
@@ -255,194 +256,5 @@ def populateFromData (env : Env) (c : Ctx) (value : ValueRef) (argHash : String)
   | .stream .., .stream .. => unmodelled "call with stream output"
   | .none, .unused _ => .ok c
   | _, _ => uncatchable .callResultNotCorrespondToInstr
-
-/-! ## the execution monad: state survives errors (Rust mutates `&mut ExecutionCtx` and then returns `Err`) -/
-
-def M (α : Type) := Ctx → Res ExecErr α × Ctx
-
-instance : Monad M where
-  pure a := fun c => (.ok a, c)
-  bind m f := fun c =>
-    match m c with
-    | (.ok a, c') => f a c'
-    | (.error e, c') => (.error e, c')
-    | (.panic s, c') => (.panic s, c')
-
-def getCtx : M Ctx := fun c => (.ok c, c)
-def setCtx (c : Ctx) : M Unit := fun _ => (.ok (), c)
-def modifyCtx (f : Ctx → Ctx) : M Unit := fun c => (.ok (), f c)
-def throwE {α} (e : ExecErr) : M α := fun c => (.error e, c)
-def liftER {α} (r : ER α) : M α := fun c => (r, c)
-/-- run a computation and hand back its result instead of propagating the error -/
-def tryM {α} (m : M α) : M (Res ExecErr α) := fun c => let (r, c') := m c; (.ok r, c')
-/-- trace-handler operation that returns a value and a new handler -/
-def liftTH {α} (i : Instr) (f : TraceHandler → TR (α × TraceHandler)) : M α := fun c =>
-  match traceToExec (f c.th) i with
-  | .ok (a, th) => (.ok a, { c with th := th })
-  | .error e => (.error e, c)
-  | .panic s => (.panic s, c)
-def liftTH' (i : Instr) (f : TraceHandler → TR TraceHandler) : M Unit :=
-  liftTH i (fun th => (f th).bind fun th' => .ok ((), th'))
-
-def makeSubgraphIncomplete : M Unit := modifyCtx fun c => { c with subgraphComplete := false }
-
-/-- the `joinable!` macro: joinable errors become `Ok(none)` with an incomplete subgraph -/
-def joinable {α} (m : M α) : M (Option α) := fun c =>
-  match m c with
-  | (.ok a, c') => (.ok (some a), c')
-  | (.error e, c') => if e.isJoinable then (.ok none, { c' with subgraphComplete := false }) else (.error e, c')
-  | (.panic s, c') => (.panic s, c')
-
-/-! ## call (`instructions/call.rs`, `call/{resolved_call,prev_result_handler,call_result_setter}.rs`) -/
-
-def meetCallEnd (cr : CallResult) : M Unit := modifyCtx fun c => { c with th := c.th.meetCallEnd cr }
-
-/-- `update_state_with_service_result` -/
-def updateStateWithServiceResult (env : Env) (t : Tetraplet) (argHash : String) (out : CallOutput)
-    (sr : CallServiceResult) : M Unit := do
-  let c ← getCtx
-  -- handle_service_error
-  if sr.retCode != 0 then
-    let failed := callServiceFailedValue sr.retCode sr.result
-    let (cid, cs) := trackServiceResult env c.cid failed t argHash
-    setCtx (({ c with cid := cs }).recordCallCid t.peerPk cid)
-    meetCallEnd (.failed cid)
-    throwE (.catchable (.localServiceError sr.retCode sr.result))
-  else
-    -- try_to_service_result
-    match env.parseJson sr.result with
-    | none =>
-      -- `{service_result}` = "ret_code: {}, result: '{}'"; the serde error text is not modelled
-      unmodelledM "service result that is not JSON (serde error text)"
-    | some result =>
-      let tracePos := c.th.tracePos
-      let (cr, c') ← liftER (populateFromPeerServiceResult env c result t argHash tracePos out)
-      setCtx c'
-      meetCallEnd cr
-where
-  unmodelledM {α} (w : String) : M α := throwE (.unmodelled w)
-
-inductive StateDescriptor where
-  | mk (shouldExecute : Bool) (prevState : Option CallResult)
-
-def StateDescriptor.maybeSetPrevState : StateDescriptor → M Unit
-  | .mk _ (some cr) => meetCallEnd cr
-  | .mk _ none => pure ()
-
-/-- `handle_prev_state` -/
-def handlePrevState (env : Env) (met : MetCallResult) (t : Tetraplet) (argHash : Option String) (out : CallOutput) :
-    M StateDescriptor := do
-  let c ← getCtx
-  match met.result with
-  | .failed failedCid =>
-    let (errValue, curT, agg) ← liftER (resolveServiceInfo env c.cid failedCid)
-    let ah ← match argHash with
-      | some h => pure h
-      | none => (fun c => (Res.panic "prev_result_handler.rs:handle_prev_state:argument_hash.unwrap()(Failed)", c) : M String)
-    liftER (verifyCall ah t agg.argumentHash curT)
-    -- serde_json::from_value::<CallServiceFailed>
-    let retCode := errValue.getField "ret_code"
-    let message := errValue.getField "message"
-    match retCode, message with
-    | some (.num rc), some (.str msg) =>
-      if rc < -2147483648 ∨ rc > 2147483647 then throwE (.uncatchable .malformedCallServiceFailed) else
-      makeSubgraphIncomplete
-      modifyCtx fun c => c.recordCallCid t.peerPk failedCid
-      meetCallEnd met.result
-      throwE (.catchable (.localServiceError rc msg))
-    | _, _ => throwE (.uncatchable .malformedCallServiceFailed)
-  | .requestSentBy (.peerIdWithCallId peer callId) =>
-    if peer == c.currentPeerId then
-      let key := toString callId
-      match lookup c.callResults key with
-      | some sr =>
-        setCtx { c with callResults := c.callResults.filter (fun (k, _) => k != key) }
-        let ah ← match argHash with
-          | some h => pure h
-          | none => (fun c => (Res.panic "prev_result_handler.rs:handle_prev_state:argument_hash.expect(Result for joinable error)", c) : M String)
-        updateStateWithServiceResult env t ah out sr
-        pure (.mk false none)
-      | none =>
-        makeSubgraphIncomplete
-        pure (.mk false (some met.result))
-    else sentByOther c
-  | .requestSentBy _ => sentByOther c
-  | .executed value =>
-    let ah ← match argHash with
-      | some h => pure h
-      | none => (fun c => (Res.panic "prev_result_handler.rs:handle_prev_state:argument_hash.unwrap()(Executed)", c) : M String)
-    let c' ← liftER (populateFromData env c value ah t met.tracePos out)
-    setCtx c'
-    match value with
-    | .scalar cid | .stream cid _ => modifyCtx fun c => c.recordCallCid t.peerPk cid
-    | .unused _ => pure ()
-    meetCallEnd (.executed value)
-    pure (.mk false none)
-where
-  sentByOther (c : Ctx) : M StateDescriptor :=
-    if t.peerPk == c.currentPeerId then pure (.mk true (some met.result))
-    else do
-      makeSubgraphIncomplete
-      pure (.mk false (some met.result))
-
-/-- `Call::execute` + `ResolvedCall::{new,execute}` + `set_errors` of call.rs -/
-def execCall (env : Env) (i : Instr) (peer svc func : Value) (args : List Value) (out : CallOutput) : M Unit := do
-  -- ResolvedCall::new (joinable, errors set without tetraplet)
-  let resolved ← joinable (withCallErrors none (do
-    let c ← getCtx
-    let p ← liftER (resolveToString c peer)
-    let s ← liftER (resolveToString c svc)
-    let f ← liftER (resolveToString c func)
-    liftER (checkOutputName c out)
-    pure ({ peerPk := p, serviceId := s, functionName := f } : Tetraplet)))
-  match resolved with
-  | none => pure ()
-  | some t =>
-    let _ ← joinable (withCallErrors (some t) (resolvedExecute t))
-    pure ()
-where
-  withCallErrors {α} (t : Option Tetraplet) (m : M α) : M α := fun c =>
-    match m c with
-    | (.error (.catchable e), c') =>
-      -- joinable errors are turned into Ok by the caller *before* `map_err(set_errors)` runs
-      if e.isJoinable then (.error (.catchable e), c')
-      else (.error (.catchable e), c'.setErrors e i.render t true)
-    | r => r
-  resolvedExecute (t : Tetraplet) : M Unit := do
-    let c ← getCtx
-    -- check_args: joinable errors are suppressed, others propagate
-    let checked : Option (List JVal) ← (fun c =>
-      match collectArgs c args with
-      | .ok (vs, _) => (.ok (some vs), c)
-      | .error e => if e.isJoinable then (.ok none, c) else (.error e, c)
-      | .panic s => (.panic s, c) : M (Option (List JVal)))
-    let argHash : Option String := checked.map fun vs => env.hash (argsJson vs)
-    -- prepare_current_executed_state
-    let met ← liftTH i (fun th => th.meetCallStart)
-    let state ← match met with
-      | .met m => handlePrevState env m t argHash out
-      | .notMet => pure (StateDescriptor.mk true none)
-    let .mk shouldExecute _ := state
-    if !shouldExecute then
-      state.maybeSetPrevState
-    else if t.peerPk != c.currentPeerId then
-      -- handle_remote_call
-      modifyCtx fun c => { c with nextPeerPks := c.nextPeerPks ++ [t.peerPk], subgraphComplete := false }
-      let c ← getCtx
-      meetCallEnd (.requestSentBy (.peerId c.currentPeerId))
-    else
-      -- prepare_request_params
-      let c ← getCtx
-      match collectArgs c args with
-      | .ok (vs, tss) =>
-        if c.lastCallRequestId + 1 > u32Max then (fun c => (Res.panic "context.rs:next_call_request_id:last_call_request_id+=1", c) : M Unit) else
-        let callId := c.lastCallRequestId + 1
-        setCtx { c with lastCallRequestId := callId,
-                        callRequests := c.callRequests ++ [(callId, ⟨t.serviceId, t.functionName, vs, tss⟩)],
-                        subgraphComplete := false }
-        meetCallEnd (.requestSentBy (.peerIdWithCallId c.currentPeerId callId))
-      | .error e =>
-        if e.isJoinable then do state.maybeSetPrevState; throwE e else throwE e
-      | .panic s => (fun c => (Res.panic s, c) : M Unit)
 
 end Aqua.Exec
